@@ -641,6 +641,9 @@ class GroupBy:
                 ),
             )
 
+        # validated as given: the timestamp conversion below drops a pandas index
+        to_check = list(value_list)
+
         type_list = [None] * len(value_list)
         for i, val in enumerate(value_list):
             if series_is_timestamp(val):
@@ -648,7 +651,6 @@ class GroupBy:
             else:
                 type_list[i] = val.dtype if hasattr(val, "dtype") else val.type
 
-        to_check = value_list
         if mask is not None and pd.api.types.is_bool_dtype(mask):
             to_check = [*to_check, mask]
 
